@@ -135,11 +135,14 @@ Print Assumptions C08_join_terminates_partial.
 
 (** Tie of the one-line model [Locks.tick_inner] to the source (the theorems about it below are
     DEFINITIONAL - they restate a hand transcription): the generated source pins are literally the
-    bodies of ProgressBar::tick_inner and BarState::tick; in the generated program of
+    bodies of ProgressBar::tick_inner and BarState::tick, and the body of TickerControl::run is literally the
+    loop that the ticker automaton transcribes (a textual pin: a change of run() breaks this theorem and
+    forces a review of the automaton; it is not a semantic tie); in the generated program of
     ProgressBar::tick the no-tick path "lock the slot, unlock it" exists; and on every path of every
     generated program BarState::tick (CTick) runs while the bar state is locked. *)
 Theorem C08_tick_transcription :
-  (src_tick_inner = src_tick_inner_expected /\ src_barstate_tick = src_barstate_tick_expected) /\
+  (src_tick_inner = src_tick_inner_expected /\ src_barstate_tick = src_barstate_tick_expected /\
+   src_ticker_run = src_ticker_run_expected) /\
   (exists p, pg_lookup ProgressBar_tick_name all_programs = Some p /\ paths p [CAcq CSlot; CRel CSlot]) /\
   (forall name p, In (name, p) all_programs -> forall tr, paths p tr -> tick_guarded tr = true).
 Proof. exact tick_transcription. Qed.
